@@ -98,18 +98,6 @@ bool float_exp_form(double d) {
   snprintf(b, sizeof(b), "%g", d);
   return strchr(b, 'e') != nullptr;
 }
-bool has_exp_float(const Val& v) {
-  if (v.k == Val::FLT) return float_exp_form(v.d);
-  for (auto& c : v.items) if (has_exp_float(c)) return true;
-  for (auto& m : v.members) if (has_exp_float(m.second)) return true;
-  return false;
-}
-const char* feature(const Val& v) {
-  if (has_exp_float(v)) return "float-in-exponent-form";
-  if (v.has_empty_container()) return "empty-container";
-  return "other";
-}
-
 std::string show_val(const Val& v) {
   std::string c = jref::canon(v);
   return c.size() > 300 ? c.substr(0, 300) + "..." : c;
@@ -131,6 +119,9 @@ std::string opt_names(uint32_t o) {
   return s.empty() ? "0" : s;
 }
 
+struct Parsed;
+Parsed try_parse(const std::string& t, bool strict);
+
 struct Parsed {
   bool ok = false;
   std::string exc;
@@ -146,6 +137,31 @@ Parsed try_parse(const std::string& t, bool strict) {
   } catch (const std::exception& e) { p.exc = std::string("exception: ") + e.what();
   } catch (...) { p.exc = "non-std exception"; }
   return p;
+}
+
+// Names the kind of the smallest sub-value whose own serialisation (same options, same mode) is rejected, so that
+// finding keys separate defects by cause ("float" vs "empty-list") rather than by whatever else the tree contains.
+// Only evaluated on the failure path.
+std::string blame(const Val& v, uint32_t o, bool strict) {
+  auto rejected = [&](const Val& c) {
+    try {
+      return !try_parse(build(c).serialize(o), strict).ok;
+    } catch (...) {
+      return true;
+    }
+  };
+  for (auto& c : v.items) if (rejected(c)) return blame(c, o, strict);
+  for (auto& m : v.members) if (rejected(m.second)) return blame(m.second, o, strict);
+  switch (v.k) {
+    case Val::NUL: return "null";
+    case Val::BOOL: return "bool";
+    case Val::INT: return "int";
+    case Val::FLT: return float_exp_form(v.d) ? "float-in-exponent-form" : "float";
+    case Val::STR: return "string";
+    case Val::LIST: return v.items.empty() ? "empty-list" : "list";
+    case Val::DICT: return v.members.empty() ? "empty-dict" : "dict";
+  }
+  return "value";
 }
 
 // mutate every node of x (strings grow, containers gain a member after their children were mutated, primitives
@@ -227,7 +243,7 @@ void check_value(vf::Run& r, const Val& v, Ctx& cx) {
     r.transitions++;
     if (!p.ok) {
       // everything below would only restate that this text is unparseable
-      fail(std::string("roundtrip:parse-rejects:") + feature(v), t, "default-mode parse threw " + p.exc);
+      fail("roundtrip:parse-rejects:" + blame(v, o, false), t, "default-mode parse threw " + p.exc);
       continue;
     } else {
       std::string d = jref::differs(p.value, v, FTOL, true);
@@ -242,19 +258,19 @@ void check_value(vf::Run& r, const Val& v, Ctx& cx) {
       if (ps.ok) {
         std::string again = ps.value.serialize(o | SORT);
         if (again != ts) fail("reserialize:text-differs", ts, "parse(t).serialize(same options) = " + brief(again));
-      } else if (!(o & SORT)) fail(std::string("roundtrip:parse-rejects:") + feature(v), ts, "default-mode parse threw " + ps.exc);
+      } else if (!(o & SORT)) fail("roundtrip:parse-rejects:" + blame(v, o | SORT, false), ts, "default-mode parse threw " + ps.exc);
     }
     // (3) standard text
     if (!(o & NONSTANDARD)) {
       Parsed s = try_parse(t, true);
       r.transitions++;
-      if (!s.ok) fail(std::string("standard-text:strict-rejects:") + feature(v), t, "strict-mode parse threw " + s.exc);
+      if (!s.ok) fail("standard-text:strict-rejects:" + blame(v, o, true), t, "strict-mode parse threw " + s.exc);
       else {
         std::string d = jref::differs(s.value, v, FTOL, true);
         if (!d.empty()) fail("standard-text:strict-wrong-value:" + d, t, "strict mode parsed it as " + brief(s.value.serialize(SORT)));
       }
       jref::Result rs = jref::parse(t, false);
-      if (!rs.accepted) fail(std::string("standard-text:not-rfc8259:") + feature(v), t, std::string("the RFC 8259 reference rejects it: ") + rs.why + " at offset " + std::to_string(rs.err_pos));
+      if (!rs.accepted) fail("standard-text:not-rfc8259", t, std::string("the RFC 8259 reference rejects it: ") + rs.why + " at offset " + std::to_string(rs.err_pos));
       else {
         std::string d = vdiff(rs.value, v, FTOL);
         if (!d.empty() || rs.outside()) fail("standard-text:rfc8259-value-differs:" + (d.empty() ? std::string("outside") : d), t, "the RFC 8259 reference reads " + show_val(rs.value));
